@@ -1,4 +1,5 @@
 import AfqmcVerif.Lemmas.SingleDet
+import AfqmcVerif.Lemmas.AutoSpec
 import Mathlib.LinearAlgebra.Matrix.Charpoly.Coeff
 import Mathlib.Tactic.FieldSimp
 import Mathlib.Tactic.Ring
@@ -80,5 +81,31 @@ theorem overlap_along_generator (C W : Matrix (Fin m) (Fin k) K) (O : Matrix (Fi
       Matrix.mul_assoc]
   rw [e, Matrix.det_mul, Matrix.det_one_add_smul]
 
+
+/-- **GHF**: each force-bias component `einsum("ij,ij", rot_chol[γ], green)` in the doubled space is the mixed expectation of
+`L_γ` with the single bra `det(Cᴴ ·)` -/
+theorem ghf_force_bias_is_mixed_expectation (H : Ham m g K) (C W : Matrix (Fin m) (Fin k) K)
+    (E : Matrix (Fin m) (Fin 0) K) (h : ovlp C W ≠ 0) (γ : Fin g) :
+    uhfForceBias H C E W E γ = obNumer (ovlp C) (H.L γ) W / ovlp C W := by
+  rw [obNumer_ovlp C W _ h]
+  unfold uhfForceBias
+  have : contract (rot E (H.L γ)) (green E E) = 0 := by unfold contract; simp
+  rw [this, add_zero, mul_div_cancel_left₀ _ h]
+
+/-- **the AD kinds** (`wave_function_auto._calc_force_bias`: multislater, CISD, UCISD, GCISD, CISD_THC): the force bias is
+`∂_x ⟨ψ|(1 + x L_γ)φ⟩ / ⟨ψ|φ⟩` at `x = 0`, taken by `vjp`.  For **every** bra that is a linear combination of products of minors
+(every trial kind, C01), every walker and every dimension, that function of `x` is a polynomial whose linear coefficient is
+the mixed-expectation numerator `⟨ψ|L̂_γ|φ⟩` (column replacements in the up block plus column replacements in the down
+block) -/
+theorem auto_force_bias_is_mixed_expectation {ι : Type} [Fintype ι] (c : ι → K)
+    (ea : ι → Fin ka → Fin m) (eb : ι → Fin kb → Fin m) (H : Ham m g K)
+    (Wa : Matrix (Fin m) (Fin ka) K) (Wb : Matrix (Fin m) (Fin kb) K) (γ : Fin g) :
+    ∃ Q : Polynomial K, ∀ x : K,
+      AfqmcVerif.AutoBra.bra c ea eb (Wa + x • (H.L γ * Wa)) (Wb + x • (H.L γ * Wb))
+        = AfqmcVerif.AutoBra.bra c ea eb Wa Wb
+          + x * ((∑ j, AfqmcVerif.AutoBra.bra c ea eb (repl Wa (H.L γ) j) Wb)
+                  + ∑ j, AfqmcVerif.AutoBra.bra c ea eb Wa (repl Wb (H.L γ) j))
+          + x ^ 2 * Q.eval x :=
+  AfqmcVerif.AutoSpec.one_body_path c ea eb (H.L γ) (H.L γ) Wa Wb
 
 end AfqmcVerif.Props.C03
